@@ -54,7 +54,7 @@ def handle (l : Line) : IO Unit := do
     let minIdx := if vals.any F64.isNaN then "skip" else match Spec.Scale.argMinNonZero vals with
       | some i => toString i
       | none => "none"
-    IO.println s!"spec {id} judge={",".intercalate verdicts} noop={",".intercalate nverdicts} min={minIdx}"
+    IO.println s!"spec {id} judge={",".intercalate verdicts} noop={",".intercalate nverdicts} min={minIdx} in=kept"
   | "classof" =>
     let u := (l.bytes? "unit").getD []
     let c := match Unit.Parse.classOf u with | .binary => "1" | .decimal => "0"
